@@ -152,6 +152,16 @@ CHECKS.update({
                 design='DESIGN.md section 9 (C20)', technique='TLA+ trace validator envelope clauses evaluated by TLC on adversarial call sequences'),
 })
 
+CHECKS.update({
+    'C19': dict(text=("Model-based (relational): Printable.tla defines what str/repr/pp output must denote; a small trusted lexer "
+                      "turns the produced text into digit tokens and layout facts and TLC evaluates the relations on every "
+                      "recorded output; MC_Print shows the relations are satisfiable and reject six kinds of corrupted output "
+                      "for every content up to 10 bits. There is no separate reachable state space for this property, so the "
+                      "model-checking part is small; the weight is on validated outputs over lengths 0..4001, 22 pp format "
+                      "specifications, widths 0..200, separators, offsets, no_color, msb0/lsb0 and Array repr over 35 dtypes."),
+                design='DESIGN.md section 9 (C19)', technique='TLA+ relational spec of printed text + trusted lexer + TLC evaluation on recorded outputs'),
+})
+
 NOT_YET = {
 }
 
